@@ -73,7 +73,7 @@ def plan(tier, seed):
     q = tier == "quick"
     nb = 12
     specs = [{"name": "wellformed-%d" % b, "kind": "wellformed", "b": b, "nb": nb, "reps": 1 if q else 6, "timeout": 2400} for b in range(nb)]
-    specs += [{"name": "nesting-%d" % b, "kind": "nesting", "b": b, "nb": nb, "reps": 1 if q else 8, "timeout": 2400} for b in range(nb)]
+    specs += [{"name": "nesting-%d" % b, "kind": "nesting", "b": b, "nb": nb, "reps": 2 if q else 8, "timeout": 2400} for b in range(nb)]
     specs += [{"name": "symmetry-%d" % b, "kind": "symmetry", "b": b, "nb": 4, "reps": 1 if q else 3, "timeout": 2400} for b in range(4)]
     return specs
 
@@ -218,6 +218,9 @@ def run_nesting(spec, rec, dadi, models):
         for rep in range(spec["reps"]):
             rng = rng_for(spec["seed"], "C15nest", ri, rep)
             env = {n: draw_value(rng, n) for n in names}
+            if "T" in env and "Ts" in env and "T" not in cons and "Ts" not in cons:
+                # models that branch on whether the split is older than the size change: both orders, in turn
+                env["Ts"] = env["T"] * (float(rng.uniform(1.2, 2.0)) if rep % 2 == 0 else float(rng.uniform(0.2, 0.8)))
             for k_, v in cons.items():
                 env[k_] = eval_expr(v, env) if isinstance(v, str) else float(v)
             pc = [env[n] for n in names]
